@@ -10,6 +10,9 @@ CFG = {
     "max_report": 1,
     "rule": "Structures: list.Queue / list.Stack (block sizes 1,2,3,4,5,64; random also 7,8) and list.SoftQueue, int payloads, "
             "EqualFunc in {==, equal mod 3, <= (asymmetric: pins the argument order equal(stored, searched); Contains differences under it are kind=fidelity)}. "
+            "Every soft-queue battery starts with an aliasing probe W: take Values(), overwrite every cell of the returned slice with a sentinel, reverse it, append into its spare capacity, keep it; "
+            "all observers that follow (Values, Contains, Peek, Dequeue) must be unaffected, and the next probe checks that the queue did not write into the slice it handed out earlier "
+            "(Values() is the only function of list/ that returns a slice; Queue/Stack return elements by value). "
             "Every battery also takes a representation snapshot through the verif hook (cursors, blocks incl. stale cells, stale rear pointer), compared as kind=fidelity. "
             "exhaustive: every history of exactly n mutators (quick n=11, thorough n=13) over {add a fresh value, remove} with the full observer battery "
             "(Size, IsEmpty, Peek, Contains of 0 = the zero value of unwritten cells, of every value added so far and of the next one; Values for the soft queue) "
